@@ -762,7 +762,11 @@ func (s *Solver) sendW(line string) {
 func (s *Solver) GetValues(names []string) map[string]string {
 	res := map[string]string{}
 	for _, n := range names {
-		res[n] = s.GetValueTerm(n)
+		v := s.GetValueTerm(n)
+		if strings.HasPrefix(v, "(error") || strings.Contains(v, "unknown constant") {
+			continue // not part of the problem sent to the solver: any value will do (the native run uses zero)
+		}
+		res[n] = v
 	}
 	return res
 }
